@@ -155,6 +155,16 @@ fn vp_native_head_hostile_inputs_no_panic_body() {
         let mut k = 0;
         loop { if k == depth { break 'all; } idx[k] += 1; if idx[k] < pieces.len() { break; } idx[k] = 0; k += 1; }
     }
+    // every three-character status token the head parser may let through (000..=999 and a few non-numeric ones), with each
+    // method and the framing fields a status-dependent decision looks at: any Ok / Err will do, a panic will not
+    let tokens: Vec<String> = (0u16..=999).map(|n| format!("{:03}", n)).chain(["1 0", "2x0", "+20", "-20", "20", "2000", "\u{ff12}00"].iter().map(|s| s.to_string())).collect();
+    for token in &tokens { for method in [Method::GET, Method::HEAD, Method::POST] { for fields in ["", "Content-Length: 4\r\n", "Transfer-Encoding: chunked\r\n", "Content-Encoding: gzip\r\nContent-Length: 4\r\n"] {
+        let w = format!("HTTP/1.1 {} Reason\r\n{}\r\n4\r\nbody\r\n0\r\n\r\n", token, fields).into_bytes();
+        let req = PreparedRequest::new(method.clone(), "http://a.test/");
+        let r = std::panic::catch_unwind(std::panic::AssertUnwindSafe(|| { let _ = parse_response(BaseStream::mock(w), &req, req.url()).and_then(|r| r.bytes()); }));
+        assert!(r.is_ok(), "the parser panicked on a {} response with status token {:?} and fields {:?}", method, token, fields);
+        cases += 1; crate::verif_native_watchdog::progress();
+    } } }
     println!("VP-NATIVE head_hostile_inputs_no_panic cases={}", cases);
 }
 
